@@ -40,6 +40,7 @@ type genCtx struct {
 	oneofs  []string
 	enums   []string
 	rich    bool // use every field type
+	spec    *Spec
 }
 
 func pickN[T any](h *vh.H, xs []T, n int) []T {
@@ -192,6 +193,7 @@ func (g *genCtx) pathParamType() *Type {
 func genSpec(h *vh.H) *Spec {
 	g := &genCtx{h: h, rich: h.Chance(1, 2)}
 	s := &Spec{Pkg: vh.Pick(h, pkgNames)}
+	g.spec = s
 
 	// schema skeleton first, so that references may point forward, backward and at themselves
 	nSchemas := h.Rng.IntN(6)
@@ -591,6 +593,30 @@ func (g *genCtx) method(name string, hasBase bool) *Method {
 		item := vh.Pick(h, g.objects)
 		m.Resp = []*Prop{{Name: vh.Pick(h, []string{"items", "nodes", "results"}), T: &Type{K: "A", Elem: &Type{K: "R", Sub: "o", Name: item}}},
 			{Name: "page", T: &Type{K: "X", Pkg: "j5.list.v1", Name: "PageResponse"}}}
+		if h.Chance(1, 3) {
+			// an envelope: a flattened object field beside the one array (preferably an object that has an
+			// array property itself: the array search of buildListRequest is over the response's own
+			// properties, like the compiler's checkListMethod, not over its client properties — seeded change C16-m8)
+			env := vh.Pick(h, g.objects)
+			for _, cand := range g.objects {
+				if sc := g.spec.object(cand); sc != nil && hasArrayProp(sc) && h.Chance(2, 3) {
+					env = cand
+					break
+				}
+			}
+			if nm := uniqueFieldNames(h, 1, append(propNames(m.Resp), "page", "query")...); len(nm) == 1 {
+				ep := &Prop{Name: nm[0], Flags: "F", T: &Type{K: "R", Sub: "o", Name: env}}
+				if h.Chance(1, 2) {
+					m.Resp = append([]*Prop{ep}, m.Resp...) // in front of the array
+				} else {
+					m.Resp = append(m.Resp, ep)
+				}
+				h.Count("gen.list-response.flattened-envelope")
+				if sc := g.spec.object(env); sc != nil && hasArrayProp(sc) {
+					h.Count("gen.list-response.flattened-envelope-with-array")
+				}
+			}
+		}
 		return m
 	}
 	if h.Chance(5, 6) {
@@ -643,6 +669,15 @@ func (impl) Gen(h *vh.H, i int) string {
 		}
 	}
 	return ""
+}
+
+func hasArrayProp(sc *Schema) bool {
+	for _, p := range sc.Props {
+		if p.T.K == "A" {
+			return true
+		}
+	}
+	return false
 }
 
 var _ = fmt.Sprint
